@@ -563,7 +563,40 @@ fn do_maint(t: &mut TestDb, m: Maint, cfg: Cfg, burn: u64, ids_upper: &mut u64, 
         }
         Maint::Reopen | Maint::CloseReopen | Maint::ReopenNoPragma | Maint::CloseReopenNoPragma => {
             st.reopens += 1;
-            let r = if matches!(m, Maint::Reopen | Maint::ReopenNoPragma) { t.reopen() } else { t.close_reopen() };
+            let np = matches!(m, Maint::ReopenNoPragma | Maint::CloseReopenNoPragma);
+            if np && STALE_WAL_PLANT.with(|p| p.get()) {
+                // harness self-test (`--opt plant=stale-wal`): emulate an open that forgets to truncate the WAL —
+                // the session-1 log is saved before the first reopen and put back before the second one
+                let wal_dir = t.dir.join("wal");
+                let stash = t.dir.with_extension("walstash");
+                let have = STALE_WAL_STASH.with(|s| s.get());
+                if !have {
+                    let _ = std::fs::remove_dir_all(&stash);
+                    let _ = std::fs::create_dir_all(&stash);
+                    if let Ok(rd) = std::fs::read_dir(&wal_dir) {
+                        for e in rd.flatten() {
+                            let _ = std::fs::copy(e.path(), stash.join(e.file_name()));
+                        }
+                    }
+                    STALE_WAL_STASH.with(|s| s.set(true));
+                } else {
+                    if m == Maint::CloseReopenNoPragma {
+                        if let Some(db) = &t.db {
+                            let _ = vcore::catch(|| db.close().map(|_| ()));
+                        }
+                    }
+                    let db = t.db.take();
+                    let _ = vcore::catch(move || drop(db));
+                    let _ = std::fs::create_dir_all(&wal_dir);
+                    if let Ok(rd) = std::fs::read_dir(&stash) {
+                        for e in rd.flatten() {
+                            let _ = std::fs::copy(e.path(), wal_dir.join(e.file_name()));
+                        }
+                    }
+                    let _ = std::fs::remove_dir_all(&stash);
+                }
+            }
+            let r = if matches!(m, Maint::Reopen | Maint::ReopenNoPragma) || t.db.is_none() { t.reopen() } else { t.close_reopen() };
             r.map_err(|e| format!("{} failed: {e}", m.name()))?;
             if matches!(m, Maint::Reopen | Maint::CloseReopen) {
                 // pragmas are not persisted: WAL is OFF again after a reopen
@@ -585,6 +618,11 @@ fn do_maint(t: &mut TestDb, m: Maint, cfg: Cfg, burn: u64, ids_upper: &mut u64, 
     }
 }
 
+thread_local! {
+    /// harness self-test `--opt plant=stale-wal` (see do_maint)
+    static STALE_WAL_PLANT: std::cell::Cell<bool> = std::cell::Cell::new(false);
+    static STALE_WAL_STASH: std::cell::Cell<bool> = std::cell::Cell::new(false);
+}
 thread_local! {
     /// (create, statements+maintenance, observe, teardown) nanoseconds — diagnostics only (`--opt timing=1`)
     static TIMING: std::cell::RefCell<[u128; 4]> = std::cell::RefCell::new([0; 4]);
@@ -650,6 +688,7 @@ impl Runner {
     /// run `k`; with `stop = Some((s, mi))` return the open database just before that maintenance op
     fn drive(&mut self, name: &str, k: &RunKey, stop: Option<(usize, usize)>, depth: usize) -> (Trace, Option<TestDb>) {
         let t0 = std::time::Instant::now();
+        STALE_WAL_STASH.with(|s| s.set(false));
         let mut tr = Trace { steps: vec![], maint_fail: None, obs: vec![], stats: RunStats::default(), rows_final: 0, index_plan: false, ids_upper: 0 };
         let scratch = self.scratch.clone();
         let mut t = match TestDb::create(&scratch, name) {
@@ -800,7 +839,8 @@ struct Engine<'a> {
 
 impl<'a> Engine<'a> {
     fn new(ctx: &'a Ctx) -> Self {
-        Engine { ctx, runner: Runner { scratch: ctx.scratch.clone(), calib: HashMap::new(), calib_runs: 0 }, twins: HashMap::new(), memo: HashMap::new(), runs: 0, shrink_runs: 0, acc: RunStats::default(), plant: ctx.opt("plant").is_some() }
+        STALE_WAL_PLANT.with(|p| p.set(ctx.opt("plant") == Some("stale-wal")));
+        Engine { ctx, runner: Runner { scratch: ctx.scratch.clone(), calib: HashMap::new(), calib_runs: 0 }, twins: HashMap::new(), memo: HashMap::new(), runs: 0, shrink_runs: 0, acc: RunStats::default(), plant: ctx.opt("plant").map(|p| p != "stale-wal").unwrap_or(false) }
     }
     fn twin(&mut self, key: &RunKey) -> Rc<Trace> {
         let tk = key.twin();
@@ -1558,7 +1598,7 @@ mod roundtrip {
 
     impl RtRunner {
         pub fn new(ctx: &Ctx) -> Self {
-            RtRunner { scratch: ctx.scratch.clone(), calib: HashMap::new(), executions: 0, statements: 0, index_plans: 0, plant: ctx.opt("plant").is_some() }
+            RtRunner { scratch: ctx.scratch.clone(), calib: HashMap::new(), executions: 0, statements: 0, index_plans: 0, plant: ctx.opt("plant").map(|p| p != "stale-wal").unwrap_or(false) }
         }
 
         fn setup(&mut self, name: &str, s: &Schema, wal: bool) -> Option<TestDb> {
